@@ -2,7 +2,8 @@
 
 U1 group-less keys are listed whether or not the file has sections      U2 exit status non-zero exactly when the library read failed; error location printed
 U3 cat walks the whole history in order                                   U4 show / syntax / cat read with the same six arguments
-U5 no argv data overruns or is cut in a fixed buffer (= C14 on util/)"""
+U5 no argv data overruns or is cut in a fixed buffer (= C14 on util/)
+U6 option arguments reach the library whole   U7 one single-file test   U8 in-place text edits keep the terminator"""
 from sa.ast import render
 from sa.facts import Inconclusive
 from sa import query, loops
@@ -102,6 +103,50 @@ def u1(prog, ctx):
                  "the only group-less pass (`%s`) is made when econf_getGroups() reports ECONF_NOGROUP: for a file that has sections AND "
                  "group-less keys - or, since sections are listed first, any file whose listing succeeds - the keys before the first header "
                  "are not shown" % sources[0][1], key="groupless-only-without-sections")
+    # a section without keys (econf_getKeys: ECONF_NOKEY) does not end the listing: the sections behind it are still shown
+    nokey = prog.enumerators.get("ECONF_NOKEY")
+    for c in gk:
+        upc = c.up()
+        v = render(upc.children[0]) if upc is not None and upc.k == "BinaryOperator" else None
+        lp = [a for a in c.ancestors() if a.k in ("ForStmt", "WhileStmt", "DoStmt")]
+        if not v or not lp:
+            continue
+        pos = cfg.index_of(upc)
+        sh = loops.index_shape(lp[0])
+        hits = []
+
+        hb_l = cfg.loop_header(lp[0])
+        succ_l = {(b2, i2): s3 for (b2, i2, s3) in cfg.edges()}
+
+        def first_pass(lit, b, i, sh=sh):
+            # this round only; and the pass for the keys outside any section may bail out differently: only follow the passes for named sections
+            if succ_l.get((b, i)) == hb_l:
+                return True
+            if lit is None or not sh.ok:
+                return False
+            if lit.kind == "eq" and lit.pol and sh.var in (render(lit.lhs), render(lit.rhs)) and 0 in (lit.lhs.const_value(), lit.rhs.const_value()):
+                return True
+            if lit.kind == "truth" and lit.atom == sh.var and not lit.pol:
+                return True
+            return lit.kind == "lt" and not lit.pol and render(lit.rhs) == sh.var and lit.lhs.const_value() == 0
+
+        def visit(b, fd, lp=lp):
+            for k, n2 in enumerate(cfg.blocks[b].elems):
+                if b == pos[0] and k <= pos[1] and not visit.left:
+                    continue
+                if n2.k == "ReturnStmt" and not n2.j.get("inlined_return") and n2.within(lp[0]):
+                    hits.append(n2)
+            visit.left = True
+            return False
+        visit.left = False
+        cfg.feasible_reach(None, first_pass, lambda a: True, start=pos[0], accept=visit, init_facts={v: True, "=" + v: nokey}, start_index=pos[1] + 1)
+        inst = "a section without keys does not end the listing"
+        if hits:
+            ctx.fail("U1", inst, hits[0].where,
+                     "when econf_getKeys() reports ECONF_NOKEY for a named section (a header without keys) pr_key_file prints an error and returns: the "
+                     "sections behind it are not shown although the library returns them", key="empty-section-stops-listing")
+        else:
+            ctx.ok("U1", inst, c.where, "with %s == ECONF_NOKEY for a named section no return is reachable in that round" % v)
     # a failing listing of one section must not be reported as success
     for c in gk:
         upc = c.up()
@@ -242,10 +287,100 @@ def u3_u4(prog, ctx):
         ctx.fail("U4", "all sub-commands get the same delimiter/comment options", m.where, "differing actuals %s" % sorted(pairs), key="subcmd-args")
 
 
+def u6_u8(prog, ctx):
+    """U6 the --comment / --delimiters arguments reach the library whole (the option variable is the argument itself or what
+    replace_str() made of it - not a character copied out of it).   U7 every place that decides "one file or a configuration to
+    look up" uses the same test.   U8 text edited in place keeps its terminator."""
+    m = prog.fn("main", util=True)
+    ctx.touch(m)
+    # ---- U6 ------------------------------------------------------------------------------------------------------------
+    opt_vars = set()
+    for c in m.calls(("econf_read", "econf_cat", "econf_edit")):
+        tgt = prog.fn(c.j["callee"], util=True)
+        pn = tgt.param_names()
+        for nm in ("delimiters", "comment"):
+            if nm in pn:
+                a = c.call_args()[pn.index(nm)].strip()
+                if a.k == "DeclRefExpr":
+                    opt_vars.add((nm, a.j["name"]))
+    if not opt_vars:
+        ctx.inconclusive("U6", "option arguments reach the library whole", m.where, "no delimiter/comment variables found in main")
+    for what, v in sorted(opt_vars):
+        defs = [(rhs, st) for lhs, rhs, st in m.assignments() if (lhs["name"] if isinstance(lhs, dict) else render(lhs)) == v]
+        whole = [st for rhs, st in defs if render(rhs) == "optarg"]
+        bad = None
+        for rhs, st in defs:
+            r = rhs.strip()
+            if render(r) == "optarg" or r.string_value() is not None:
+                continue
+            if r.k == "CallExpr" and r.j.get("callee") == "replace_str" and render(r.call_args()[0]) == v:
+                continue
+            if r.k == "DeclRefExpr" and r.j.get("dk") == "local" and (r.j.get("ct") or "").endswith("]"):
+                # the variable points at a fixed local array: whatever is copied into it is at most that long
+                bad = (st, "`%s` points at the %s-byte array `%s`: only a prefix of the argument can ever get there" % (v, r.j.get("ct"), render(r)))
+                continue
+            bad = bad or (st, "`%s` is set to `%s`" % (v, render(r)))
+        inst = "--%s reaches the library whole" % what
+        if bad:
+            ctx.fail("U6", inst, bad[0].where, bad[1] + " - a comment/delimiter SET given on the command line is cut, the tool parses differently from the library call "
+                     "with that set", key="option-cut:%s" % what)
+        elif whole:
+            ctx.ok("U6", inst, whole[0].where, "%s = optarg (then only replace_str() on it)" % v)
+        else:
+            ctx.fail("U6", inst, m.where, "`%s` is never set from optarg: the option has no effect" % v, key="option-ignored:%s" % what)
+    # ---- U7 ------------------------------------------------------------------------------------------------------------
+    kinds = {}
+    for f in prog.util_functions.values():
+        for (b, i, s2) in f.cfg.edges():
+            if i != 0:
+                continue
+            lit = f.cfg.edge_lit(b, i)
+            if lit is None:
+                continue
+            if lit.kind == "eq":
+                for x, y in ((lit.lhs, lit.rhs), (lit.rhs, lit.lhs)):
+                    if y.const_value() == 47 and render(x) in ("conf_filename[0]", "*conf_filename", "argv[optind + 1][0]", "*argv[optind + 1]"):
+                        kinds.setdefault("first character is '/'", []).append((f, f.cfg.blocks[b].cond))
+            elif lit.kind == "truth" and lit.node.k == "CallExpr" and lit.node.j.get("callee") in ("strchr", "strrchr", "strstr", "strpbrk") and lit.node.call_args() \
+                    and render(lit.node.call_args()[0]) in ("conf_filename", "argv[optind + 1]"):
+                kinds.setdefault("contains a '/'", []).append((f, f.cfg.blocks[b].cond))
+    if len(kinds) > 1:
+        minority = min(kinds.items(), key=lambda kv: len(kv[1]))
+        ctx.fail("U7", "one test decides between a single file and a configuration to look up", minority[1][0][1].where,
+                 "%s decides by `%s` while %s decide by `%s`: for a name like sub/foo.conf main() prepares a lookup in the configuration directories and the "
+                 "sub-command opens the name as a file (or refuses it)" % (
+                     sorted(set(f.name for f, _ in minority[1])), minority[0],
+                     sorted(set(f.name for k2, v2 in kinds.items() if k2 != minority[0] for f, _ in v2)), [k2 for k2 in kinds if k2 != minority[0]][0]),
+                 key="single-file-test")
+    elif kinds:
+        k0 = list(kinds)[0]
+        ctx.ok("U7", "one test decides between a single file and a configuration to look up", kinds[k0][0][1].where, "%d sites, all `%s`" % (len(kinds[k0]), k0))
+    else:
+        ctx.inconclusive("U7", "one test decides between a single file and a configuration to look up", m.where, "no such test found")
+    # ---- U8 ------------------------------------------------------------------------------------------------------------
+    n8 = 0
+    for f in list(prog.util_functions.values()) + list(prog.lib_functions()):
+        for c in f.calls(("memmove",)):
+            a = c.call_args()
+            if len(a) != 3:
+                continue
+            n8 += 1
+            ln = a[2].strip()
+            if ln.k == "CallExpr" and ln.j.get("callee") == "strlen" and render(ln.call_args()[0]) == render(a[1]):
+                ctx.fail("U8", "%s: a string tail moved in place keeps its terminator" % f.name, c.where,
+                         "`%s` moves strlen(source) bytes: the terminating NUL stays behind, the text keeps its old tail (e.g. `=\\t` becomes `=<TAB>t`)" % render(c)[:80],
+                         key="shift-without-nul:%s" % f.name)
+            else:
+                ctx.ok("U8", "%s: a string tail moved in place keeps its terminator" % f.name, c.where, "length `%s`" % render(ln)[:60])
+    if n8 == 0:
+        ctx.ok("U8", "no in-place string shifting", "", "no memmove() on text in lib/ and util/ besides the entry array")
+
+
 def run(prog, ctx):
     u1(prog, ctx)
     u2(prog, ctx)
     u3_u4(prog, ctx)
+    u6_u8(prog, ctx)
     from rules import C14
     from sa.report import Ctx
     sub = Ctx(ctx.prop, ctx.tier, prog)
